@@ -435,7 +435,7 @@ fn crash_violation(s: &Scenario, infos: &[WorldInfo], detail: String) -> Violati
         let forget = last.map(|st| (st.op == Op::Take && st.sink == SINK_FORGET) || (matches!(st.op, Op::Drain | Op::Splice) && (st.sink % 2 == END_FORGET || st.script.iter().any(|b| (b >> 1) % ITEM_KINDS == ITEM_FORGET)))).unwrap_or(false);
         if forget { 5 } else { 0 }
     });
-    Violation { class: Class::Crash, step: s.steps.len() as i32 - 1, op: last.map(|st| st.op).unwrap_or(Op::Nop), via: last.map(|st| st.via % 3).unwrap_or(0), on_stack, faulted, panic_involved: false, ownership: false, context: String::new(), detail }
+    Violation { class: Class::Crash, step: s.steps.len() as i32 - 1, op: last.map(|st| st.op).unwrap_or(Op::Nop), via: last.map(|st| st.via % 3).unwrap_or(0), sink: last.map(|st| st.sink).unwrap_or(0), on_stack, faulted, panic_involved: false, ownership: false, context: String::new(), detail }
 }
 
 fn without_steps(s: &Scenario, from: usize, to: usize) -> Option<Scenario> {
